@@ -159,10 +159,22 @@ structure Sess where
   sent : List Query := []              -- what was written to the cache
   softPending : Bool := false          -- a stored `Notify` permit
   done : Bool := false                 -- the future has returned
+  rx : Nat := 0                        -- sum of the `RpkiState` receive counters (`RpkiState::update`)
+  wfailAt : Option Nat := none         -- writes fail from this query on (harness fault injection)
   deriving Repr, Inhabited
 
+/-- `RpkiState::update`: the message kinds that have a receive counter -/
+def counted : Msg → Nat
+  | .serialNotify .. => 1
+  | .cacheResponse _ => 1
+  | .ipPrefix .. => 1
+  | .endOfData .. => 1
+  | .cacheReset => 1
+  | .errorReport _ => 1
+  | _ => 0
+
 /-- the `match msg` of the loop body -/
-def process (s : Sess) (t : Table) : Msg → Sess × Table
+def handle (s : Sess) (t : Table) : Msg → Sess × Table
   | .serialNotify _ serial =>
       if s.eod ∧ serial ≠ s.serial then ({ s with sent := s.sent ++ [.serial s.sessionId s.serial] }, t)
       else (s, t)
@@ -178,6 +190,10 @@ def process (s : Sess) (t : Table) : Msg → Sess × Table
       else ({ s with serial := serial }, t)
   | .cacheReset => ({ s with eod := false, v := [], sent := s.sent ++ [.reset] }, t)
   | _ => (s, t)
+
+/-- `state.update(&msg)` then the `match msg` -/
+def process (s : Sess) (t : Table) (m : Msg) : Sess × Table :=
+  handle { s with rx := s.rx + counted m } t m
 
 /-- leaving the loop: `rpki_drop_all` -/
 def finish (s : Sess) (t : Table) : Sess × Table := ({ s with done := true }, t.dropSource s.src)
@@ -209,6 +225,18 @@ def soft (s : Sess) (t : Table) : Sess × Table :=
   else if s.eod then ({ s with sent := s.sent ++ [.serial s.sessionId s.serial] }, t)
   else ({ s with softPending := true }, t)
 
+/-- fault injection: from now on every write of the client fails (`let _ = lines.send(..)`) -/
+def failWrites (s : Sess) (t : Table) : Sess × Table :=
+  match s.wfailAt with
+  | some _ => (s, t)
+  | none => ({ s with wfailAt := some s.sent.length }, t)
+
+/-- the queries that reached the cache -/
+def Sess.delivered (s : Sess) : List Query :=
+  match s.wfailAt with
+  | some k => s.sent.take k
+  | none => s.sent
+
 /-- EOF or cancellation -/
 def close (s : Sess) (t : Table) : Sess × Table := if s.done then (s, t) else finish s t
 
@@ -227,6 +255,7 @@ inductive Step where
   | start (sid : Nat)
   | send (sid n : Nat)
   | soft (sid : Nat)
+  | wfail (sid : Nat)
   | close (sid : Nat) (eof : Bool)
   | snap
   deriving DecidableEq, Repr, Inhabited
@@ -250,8 +279,8 @@ structure World where
   deriving Repr, Inhabited
 
 structure Snap where
-  roas : List (Nat × Net × Nat × Nat)                  -- (cache, net, maxlen, asn)
-  sess : List (Nat × Nat × Nat × List Query)           -- (sid, serial, session id, queries)
+  roas : List (Nat × Nat × Net × Nat × Nat)            -- (sid of the owning session, cache, net, maxlen, asn)
+  sess : List (Nat × Nat × Nat × Nat × List Query)     -- (sid, serial, session id, rx, queries)
   done : List Nat
   deriving DecidableEq, Repr, Inhabited
 
@@ -275,15 +304,15 @@ def updSlot (sid : Nat) (f : Slot → Table → Slot × Table) : List Slot → T
         let (xs', t') := updSlot sid f xs t
         (x :: xs', t')
 
-def roasOf (l : List (Net × Roa)) : List (Nat × Net × Nat × Nat) :=
-  l.map (fun e => (e.2.src.cache, e.1, e.2.maxlen, e.2.asn))
+def roasOf (l : List (Net × Roa)) : List (Nat × Nat × Net × Nat × Nat) :=
+  l.map (fun e => (e.2.src.arc, e.2.src.cache, e.1, e.2.maxlen, e.2.asn))
 
 def World.snap (w : World) : Out Snap :=
   match w.table.iter .v4, w.table.iter .v6 with
   | .ok l4, .ok l6 =>
       let started := sortBySid (w.slots.filterMap (fun x => x.client.map (fun c => (x.sid, c))))
       .ok { roas := roasOf l4 ++ roasOf l6,
-            sess := started.map (fun p => (p.1, p.2.serial, p.2.sessionId, p.2.sent)),
+            sess := started.map (fun p => (p.1, p.2.serial, p.2.sessionId, p.2.rx, p.2.delivered)),
             done := (started.filter (fun p => p.2.done)).map (·.1) }
   | _, _ => .panic
 
@@ -302,6 +331,11 @@ def softF (x : Slot) (t : Table) : Slot × Table :=
   | some c => ({ x with client := some (soft c t).1 }, (soft c t).2)
   | none => (x, t)
 
+def wfailF (x : Slot) (t : Table) : Slot × Table :=
+  match x.client with
+  | some c => ({ x with client := some (failWrites c t).1 }, (failWrites c t).2)
+  | none => (x, t)
+
 def closeF (x : Slot) (t : Table) : Slot × Table :=
   match x.client with
   | some c => ({ x with client := some (close c t).1 }, (close c t).2)
@@ -312,6 +346,7 @@ def World.step (w : World) : Step → World
   | .send sid n =>
       { table := (updSlot sid (sendF n) w.slots w.table).2, slots := (updSlot sid (sendF n) w.slots w.table).1 }
   | .soft sid => { table := (updSlot sid softF w.slots w.table).2, slots := (updSlot sid softF w.slots w.table).1 }
+  | .wfail sid => { table := (updSlot sid wfailF w.slots w.table).2, slots := (updSlot sid wfailF w.slots w.table).1 }
   | .close sid _ => { table := (updSlot sid closeF w.slots w.table).2, slots := (updSlot sid closeF w.slots w.table).1 }
   | .snap => w
 
